@@ -98,12 +98,19 @@ PROPS["C03"] = {
     "validate_tests": "TestKnownFindingMatchPath",
     "programs": {
         "quick": [P(".", "VerifPathSelectorShape", must_reach=("end", "empty-path"), len=3),
-                  P("test", "VerifPathTraversal", must_reach=("end", "present", "absent"))],
+                  P("test", "VerifPathTraversal", must_reach=("end", "present", "absent")),
+                  P("test", "VerifPathSymbolicSegment", must_reach=("end", "names-the-entry", "names-the-sibling", "names-nothing"), namelen=2, seglen=2),
+                  P("test", "VerifPathSymbolicSegment", must_reach=("end", "names-nothing"), namelen=1, seglen=3),
+                  P("test", "VerifPathSymbolicSegment", must_reach=("end", "names-the-entry", "names-nothing"), namelen=3, seglen=3)],
         "thorough": [P(".", "VerifPathSelectorShape", must_reach=("end", "empty-path"), len=5),
-                     P("test", "VerifPathTraversal", must_reach=("end", "present", "absent"))],
+                     P("test", "VerifPathTraversal", must_reach=("end", "present", "absent")),
+                     P("test", "VerifPathSymbolicSegment", must_reach=("end", "names-the-entry", "names-the-sibling", "names-nothing"), namelen=2, seglen=2),
+                     P("test", "VerifPathSymbolicSegment", must_reach=("end", "names-nothing"), namelen=2, seglen=5),
+                     P("test", "VerifPathSymbolicSegment", must_reach=("end", "names-the-entry", "names-nothing"), namelen=5, seglen=5),
+                     P("test", "VerifPathSymbolicSegment", must_reach=("end", "names-nothing"), namelen=4, seglen=6)],
     },
-    "bounds": {"quick": "S1: every ASCII path string of 3 bytes x 4 target selectors x matchPath on/off: selector == reference tree, compiles; S3: the real go-ipld-prime traversal (interpreted) over one tree (plain dirs, HAMT dir, 3-block file) x 8 paths (present, absent, redundant slashes, '..') x 3 target selectors x matchPath, symbolic file contents: matches, order, bytes, blocks requested",
-               "thorough": "S1 with every ASCII path of 5 bytes"},
+    "bounds": {"quick": "S1: every ASCII path string of 3 bytes x 4 target selectors x matchPath on/off: selector == reference tree, compiles; S3: the real go-ipld-prime traversal (interpreted) over one tree (plain dirs, HAMT dir, 3-block file) x 8 paths (present, absent, redundant slashes, '..') x 3 target selectors x matchPath, symbolic file contents: matches, order, bytes, blocks requested; S3-symbolic: plain directory with an arbitrary ASCII entry name (1..3 bytes) and path 'd/<seg>' with arbitrary ASCII segment bytes (2..3), two spellings of the path, match / preload targets: matched iff seg equals an entry name, with that entry's bytes",
+               "thorough": "S1 with every ASCII path of 5 bytes; S3-symbolic with names to 5 and segments to 6 bytes"},
     "assumptions": ["non-ASCII path bytes are outside S1 (ParsePath splits on '/' only; segments are opaque)"],
     "outside": "trees other than the one in S3; explore-all target in S3",
 }
@@ -216,7 +223,8 @@ PROPS["C09"] = {
         "thorough": [P("data", "VerifDecodeFieldOrder", nopt=2, unk=0, lens=2),
                      P("data", "VerifDecodeFieldOrder", nopt=1, unk=1),
                      P("data", "VerifDecodeBlockSizes", must_reach=("end", "packed", "unpacked", "interleaved"), maxbs=3, lens=2, unkkinds=0),
-                     P("data", "VerifDecodeBlockSizes", must_reach=("end", "packed", "unpacked", "interleaved"), maxbs=1, lens=10, unkkinds=1),
+                     P("data", "VerifDecodeBlockSizes", must_reach=("end", "packed", "unpacked", "interleaved"), maxbs=1, lens=10, unkkinds=0),
+                     P("data", "VerifDecodeBlockSizes", must_reach=("end", "packed", "unpacked", "interleaved"), maxbs=1, lens=2, unkkinds=1),
                      P("data", "VerifDecodeRequired"),
                      P("data", "VerifDecodeTime", lens=10), P("data", "VerifDecodeMetadata", lens=3),
                      P("data", "VerifEncodeReference", nopt=2, maxbs=2),
